@@ -32,6 +32,8 @@ CLAIMED = {
             "2 bins 1D, 2x2 2D; one step (quick), two steps (thorough)", "DESIGN.md 5/C18"),
     "C04": ("Two encodings of the same real code (FixedWidthBinning._force_bin_existence(_single), numpy_bins, first/last_edge, HistogramBase._reshape_data/_apply_bin_map, adaptive branches of fill/fill_n, find_bin): (1) exact-real inductive step from an ARBITRARY grid state (symbolic width, shift, offset, contents) with one fill / fill_n of symbolic values: grid invariant, every value inside a bin, exact span, old contents attached to their intervals, totals, nothing missed, 1D..3D; (2) binary64 FP-mode (z3 FloatingPoint, RNE) execution of the same kernel for constant widths with a symbolic binary64 value: the value filled is inside a bin. (2) is what finds the decimal-literal losses (width 0.1).",
             "(1) bin_count 0..2 (quick) / 0..3, values within 3 (quick) / 4 widths, 1..3 values; (2) widths 0.5, 1.0, 0.25 with |v| <= 8 widths (quick); 9 widths incl. 0.1, 0.2, 0.3, 1e-3 with |v| <= 30 widths (thorough)", "DESIGN.md 5/C04"),
+    "C07": ("Bounded symbolic model checking of the binning classes and factories: acceptance of ARBITRARY symbolic edge arrays iff strictly rising and non-overlapping; agreement of bins / numpy_bins / numpy_bins_with_mask / bin_count / first,last edge / is_consecutive / is_regular / copy / == / slicing / as_static / as_fixed_width for Static (consecutive, gapped), Numpy, FixedWidth, Exponential binnings with symbolic parameters; numpy_binning = start + i*(stop-start)/k covering the data; fixed_width / integer binnings on the grid, covering min and max minimally, integer bins centred on integers; quantile edges = order statistics, ties refused; pretty widths in {1,2,2.5,5}*10^k nearest in log scale (log10/ln uninterpreted with order axioms); sqrt / sturges / rice / default bin-count rules for all n in [1,1024]; calculate_1d_bins / calculate_nd_bins dispatch and refusals.",
+            "M<=3 bins, N<=2 (quick) / N<=3 data values, |data| <= 50, widths in [4,64]; astropy-based methods, doane, exponential_binning(data) and bit-exact agreement with numpy.linspace are outside", "DESIGN.md 5/C07"),
 }
 
 REASONS_NOT_YET = "check not built yet (work in progress; see DESIGN.md section 8 build order)"
